@@ -95,5 +95,15 @@ TEXT = {
         "note": _NOTE + "; 'keeps the structure' is read off the public operator classes, as the statement is about them",
         "technique": "runtime monitoring: reference reconstruction oracle + structural invariant on the returned operator tree",
     },
+    "C12": {
+        "level": "Held on the executions observed: every CG loop state is recorded by a tap on the instrumented while loop and "
+                 "products with A are counted; per column the iterates are compared with the extended-precision Krylov optimum in "
+                 "regimes fixed by construction and calibrated on the unchanged code, and the stopping contract, bookkeeping, exact "
+                 "zeros, linearity and column independence are judged on logical steps.",
+        "note": _NOTE + "; optimality is only judged where finite-precision CG provably-in-practice tracks exact arithmetic (k<=2 "
+                "anywhere; k<=4 for cond<=1e2; k<=30 for uniformly spaced spectra without preconditioner), elsewhere only the "
+                "locally enforced relations are judged; info['iterations'] may count steps or loop tests",
+        "technique": "runtime monitoring: loop-state tap + product counter, trace checked offline against an extended-precision Krylov-optimum oracle and the stopping-rule specification",
+    },
 }
 NOT_APPLICABLE = {}
